@@ -121,7 +121,11 @@ pub const HANG_EXIT: i32 = 86;
 /// cannot be interrupted from inside; the watchdog ends the worker with a distinctive status and
 /// the driver records a hang for the case announced in the progress file, then carries on.
 fn spawn_watchdog(limit_s: u64) {
+    // The thread's start-up allocates and frees; allocation accounting (C09, C10, C19) must not see
+    // that, so the caller waits until the thread is inside its loop, which never allocates.
+    static READY: std::sync::atomic::AtomicBool = std::sync::atomic::AtomicBool::new(false);
     std::thread::spawn(move || loop {
+        READY.store(true, std::sync::atomic::Ordering::SeqCst);
         std::thread::sleep(std::time::Duration::from_millis(250));
         let since = BUSY_SINCE_MS.load(std::sync::atomic::Ordering::SeqCst);
         if since != 0 && now_ms().saturating_sub(since) > limit_s * 1000 {
@@ -129,6 +133,11 @@ fn spawn_watchdog(limit_s: u64) {
             std::process::exit(HANG_EXIT);
         }
     });
+    while !READY.load(std::sync::atomic::Ordering::SeqCst) {
+        std::thread::yield_now();
+    }
+    // one more scheduling quantum: the first sleep() call itself must have been entered
+    std::thread::sleep(std::time::Duration::from_millis(20));
 }
 
 impl Collector {
